@@ -188,6 +188,14 @@ def api_histories():
     H.append((None, [("new", 0), ("compile", 0, "func main() -> int { ? }"), ("del", 0), ("new", 0), ("compile", 0, P2),
                      ("prepare", 0, "main"), ("vmnew", 0, 100, 50), ("vmnew", 1, 5000, 200), ("exec", 0, 0), ("exec", 0, 1),
                      ("vmdel", 1), ("vmdel", 0), ("del", 0)]))
+    # one machine used for two programs that make foreign calls into the same library, the first program deleted in between:
+    # the machine's library cache must not keep pointers into the deleted program (its string table)
+    F1 = 'extern "libm.so.6" func sinhf(x : float) -> float\nfunc main() -> int { sinhf(1.0) > 1.0 ? 1 : 0 }'
+    F2 = 'extern "libm.so.6" func coshf(x : float) -> float\nextern "libm.so.6" func sinhf(x : float) -> float\nfunc main() -> int { coshf(1.0) + sinhf(0.0) > 1.0 ? 1 : 0 }'
+    H.append((None, [("new", 0), ("compile", 0, F1), ("prepare", 0, "main"), ("vmnew", 0, 5000, 200), ("exec", 0, 0), ("del", 0),
+                     ("new", 1), ("compile", 1, F2), ("prepare", 1, "main"), ("exec", 1, 0), ("exec", 1, 0), ("del", 1), ("vmdel", 0)]))
+    H.append((None, [("new", 0), ("compile", 0, F1), ("new", 1), ("compile", 1, F2), ("prepare", 0, "main"), ("prepare", 1, "main"), ("vmnew", 0, 5000, 200),
+                     ("exec", 1, 0), ("exec", 0, 0), ("del", 1), ("exec", 0, 0), ("del", 0), ("vmdel", 0)]))
     return H
 
 def check(tier, seed):
